@@ -354,7 +354,7 @@ def _chain_walk_list(run, fn, g, C, tloop, TGT, ivc, climb, vfor, root_param):
             for a, b in ((l, r), (r, l)):
                 if norm(b) == "self.ROOT_ELEMENT" and isinstance(a, ast.Attribute) and a.attr == "signed_by":
                     cur = norm(a.value)
-                    if cur == f"{L}[-1]" or isinstance(a.value, ast.Name):
+                    if cur in (f"{L}[-1]", f"{L}[0]") or isinstance(a.value, ast.Name):
                         if state.setdefault("CUR", cur) == cur:
                             return ("ROOT", op in ("==", "is"))
         return None
@@ -364,6 +364,10 @@ def _chain_walk_list(run, fn, g, C, tloop, TGT, ivc, climb, vfor, root_param):
         kind = "next" if lf.kind == "stop" and lf.node is ch else ("leave" if lf.kind == "stop" and lf.node is ca else f"{lf.kind} at line {lf.node.lineno}")
         CUR = state.get("CUR")
         pushes = [v for k, st, v in lf.effects if k == "expr" and isinstance(v, ast.Call) and call_name(v) == "append" and is_name(v.func.value, L)]
+        if CUR == f"{L}[0]":
+            # the path kept root-first: each step puts the certifier of the first element in front
+            pushes = [v for k, st, v in lf.effects if k == "expr" and isinstance(v, ast.Call) and call_name(v) == "insert" and is_name(v.func.value, L) and len(v.args) == 2
+                      and isinstance(v.args[0], ast.Constant) and v.args[0].value == 0 and type(v.args[0].value) is int]
         others = [st for k, st, v in lf.effects if k in ("store", "delete", "aug") or (k == "expr" and v not in pushes and isinstance(v, ast.Call)
                                                                                       and call_name(v) in ("pop", "append", "extend", "insert", "clear", "remove", "reverse", "sort"))]
         for v in completions({k: b for k, b in lf.pc.items() if k == "ROOT"}, ["ROOT"]):
@@ -373,11 +377,12 @@ def _chain_walk_list(run, fn, g, C, tloop, TGT, ivc, climb, vfor, root_param):
                 run.check("R1", kind == "leave" and not pushes and not others and not cur_changed and "ROOT" in lf.pc, "[ROOT] -> the climb ends with nothing changed",
                           key="validate_and_get_values|climb|root-exit", where=fn.loc(climb),
                           message=f"when the element is signed by the root the climb does `{kind}` (pushes: {len(pushes)}); it must simply end")
-            elif CUR == f"{L}[-1]":
-                okp = len(pushes) == 1 and len(pushes[0].args) == 1 and norm(pushes[0].args[0]) == f"self._elements[{L}[-1].signed_by]"
-                run.check("R1", kind == "next" and okp and not others, "[not ROOT] -> the certifier of the last element is appended", key="validate_and_get_values|climb|push",
-                          where=fn.loc(climb), message=f"a climb step does `{kind}` and appends {[norm(p) for p in pushes]} (other effects: {[norm(o)[:40] for o in others]}); expected "
-                          f"exactly {L}.append(self._elements[{L}[-1].signed_by])")
+            elif CUR in (f"{L}[-1]", f"{L}[0]"):
+                okp = len(pushes) == 1 and norm(pushes[0].args[-1]) == f"self._elements[{CUR}.signed_by]"
+                wantp = f"{L}.append(self._elements[{L}[-1].signed_by])" if CUR == f"{L}[-1]" else f"{L}.insert(0, self._elements[{L}[0].signed_by])"
+                run.check("R1", kind == "next" and okp and not others, "[not ROOT] -> the certifier of the outermost element joins the path on that side", key="validate_and_get_values|climb|push",
+                          where=fn.loc(climb), message=f"a climb step does `{kind}` and adds {[norm(p) for p in pushes]} (other effects: {[norm(o)[:40] for o in others]}); expected "
+                          f"exactly {wantp}")
             else:
                 okp = len(pushes) == 1 and len(pushes[0].args) == 1 and norm(pushes[0].args[0]) == CUR
                 step = lf.env.get(CUR, lf.bind.get(CUR)) if CUR else None
@@ -387,7 +392,11 @@ def _chain_walk_list(run, fn, g, C, tloop, TGT, ivc, climb, vfor, root_param):
                           f"{L}.append({CUR}) then {CUR} = self._elements[{CUR}.signed_by]")
     CUR = state.get("CUR")
     run.require(CUR is not None, "validate_and_get_values: the climb's test of signed_by against the root was not identified (idiom not understood)")
-    cursor = CUR != f"{L}[-1]"
+    cursor = CUR not in (f"{L}[-1]", f"{L}[0]")
+    FRONT = CUR == f"{L}[0]"
+    # a path built by insertion in front is root-first already: it must be visited front to back, as it is
+    run.check("R1", not (FRONT and backwards), "a root-first path is visited front to back", key="validate_and_get_values|handover|front-order", where=fn.loc(vfor),
+              message="the path is built root-first (insert(0, ..)) and then visited back to front: verification would start at the leaf")
     # `for e in [top] + L[::-1]`: the top element is visited first without being put on the list - only the cursor form leaves it outside the list
     run.check("R1", TOP is None or (cursor and TOP == CUR), "an element visited ahead of the list is the top element the climb stopped at",
               key="validate_and_get_values|handover|top-first", where=fn.loc(vfor),
@@ -415,7 +424,7 @@ def _chain_walk_list(run, fn, g, C, tloop, TGT, ivc, climb, vfor, root_param):
                   key="validate_and_get_values|current_certifier|root-init", where=fn.loc(),
                   message=f"validation of a target starts with certifier `{norm(got) if got is not None else Y + ' (left over from the previous target)'}`, not with the `{root_param}` parameter")
         lcalls = [norm(v) for k, st, v in lf.effects if k == "expr" and isinstance(v, ast.Call) and isinstance(v.func, ast.Attribute) and is_name(v.func.value, L)]
-        want_calls = ([f"{L}.append({CUR})"] if cursor and TOP is None else []) + ([] if backwards else [f"{L}.reverse()"])
+        want_calls = ([f"{L}.append({CUR})"] if cursor and TOP is None else []) + ([] if (backwards or FRONT) else [f"{L}.reverse()"])
         rebound = [nm for nm in ((L, CUR) if cursor else (L,)) if nm in lf.env or nm in lf.bind]
         run.check("R1", lcalls == want_calls and not rebound, "between the loops the path is completed with the top element (cursor form), put in root-first visiting order, and otherwise untouched",
                   key="validate_and_get_values|handover|untouched", where=fn.loc(),
@@ -460,7 +469,7 @@ def _chain_walk_list(run, fn, g, C, tloop, TGT, ivc, climb, vfor, root_param):
                 run.check("R1", cert is not None and is_name(cert, X), "the verified element becomes the next certifier", key="validate_and_get_values|advance|certifier",
                           where=fn.loc(vfor), message=f"after an element verified the next certifier is `{norm(cert) if cert is not None else Y + ' (unchanged)'}`, not the element just verified")
     # all elements verified: the verdict is the leaf's value (the leaf is the first element of the path as built = the last one visited)
-    LEAF = "0" if backwards else "-1"
+    LEAF = "0" if (backwards and not FRONT) else "-1"
     for lf in Walker(A, fn, C, lambda e: None, stop_at_for=True).walk(v_done[0], stops={fh[0]}):
         n_cases += 1
         sts = stores(lf)
@@ -644,6 +653,10 @@ def values(run, F, PV, C, E):
              "get_value = EXTRACTORS[name](hexdecode(message)).hex(); EXTRACTORS and VALID_NAMES equal the "
              "`extract` definition and the name list of docs/attestation.md; get_pubkey parses get_value(); "
              "a certificate's element map is keyed by element name.")
+    # EXTRACTORS maps a name to a one-argument function of the decoded message, or (all entries alike) to the slice() to take of it
+    ex0 = E.assigns.get("EXTRACTORS")
+    state_slices = {"on": isinstance(ex0, ast.Dict) and bool(ex0.values) and all(isinstance(v_, ast.Call) and norm(v_.func) == "slice" and not v_.keywords
+                                                                                 and 1 <= len(v_.args) <= 2 for v_ in ex0.values)}
     for meth, want, label, msg in (
             ("get_value", "self.EXTRACTORS[self.name](bytes.fromhex(self.message)).hex()", "get_value extracts from the signed message",
              "get_value is not EXTRACTORS[name](hexdecode(message)).hex()"),
@@ -652,6 +665,9 @@ def values(run, F, PV, C, E):
             ("get_tweak", "self.tweak", "get_tweak returns the tweak", "get_tweak changed")):
         m_ = P.method(E, meth)
         got = {_strip(x) for x in return_values(A, m_, E, PV)}
+        if meth == "get_value" and state_slices["on"]:
+            # the table holds the slices themselves: the value is that slice of the decoded message
+            want = "bytes.fromhex(self.message)[self.EXTRACTORS[self.name]].hex()"
         run.check("R3", got == {_strip(want)}, label, key=f"HSMCertificateElement.{meth}|expr", where=m_.loc(),
                   message=f"{msg} (returns {sorted(got)[:2]})")
         # ... for every element alike: any element may certify another one (chains of depth four), so the accessors are unconditional
@@ -678,6 +694,11 @@ def values(run, F, PV, C, E):
         if isinstance(k, ast.Constant) and isinstance(v, ast.Lambda) and len(v.args.args) == 1:
             a = v.args.args[0].arg
             body = norm(v.body)
+        elif isinstance(k, ast.Constant) and state_slices["on"]:
+            # slice(stop) / slice(start, stop) with None for an open end: b[start:stop]
+            lo, hi = (None, v.args[0]) if len(v.args) == 1 else (v.args[0], v.args[1])
+            txt = lambda x: "" if x is None or (isinstance(x, ast.Constant) and x.value is None) else norm(x)   # noqa: E731
+            a, body = "b", f"b[{txt(lo)}:{txt(hi)}]"
         elif isinstance(k, ast.Constant) and isinstance(v, ast.Name):
             # a named one-parameter function of the module: what it returns
             try:
